@@ -9,7 +9,7 @@ use ssdeep::{Generator, GeneratorError};
 
 pub const MAX_INPUT: u64 = 192u64 << 30;
 pub const N_FORMS: u64 = 8;
-pub const FORM_NAMES: [&str; 8] = ["update", "update_by_iter", "update_by_byte", "+=&[u8]", "+=&[u8;5]/+=u8", "+=u8", "update_by_iter(filter)", "update_by_iter(flat_map)"];
+pub const FORM_NAMES: [&str; 8] = ["update", "update_by_iter", "update_by_byte", "+=&[u8]", "+=&[u8;N]/+=u8", "+=u8", "update_by_iter(filter)", "update_by_iter(flat_map)"];
 
 pub fn feed(g: &mut Generator, form: u64, chunk: &[u8]) {
     match form % N_FORMS {
@@ -28,13 +28,29 @@ pub fn feed(g: &mut Generator, form: u64, chunk: &[u8]) {
             *g += chunk;
         }
         4 => {
-            let mut it = chunk.chunks_exact(5);
-            for c in &mut it {
-                let a: &[u8; 5] = c.try_into().unwrap();
-                *g += a;
+            // array form with a length that depends on the chunk (1..257: below, at and above the
+            // 7-byte window, the 64-symbol capacity and one byte of length), remainder by single bytes
+            macro_rules! arrays {
+                ($n:literal) => {{
+                    let mut it = chunk.chunks_exact($n);
+                    for c in &mut it {
+                        let a: &[u8; $n] = c.try_into().unwrap();
+                        *g += a;
+                    }
+                    for &b in it.remainder() {
+                        *g += b;
+                    }
+                }};
             }
-            for &b in it.remainder() {
-                *g += b;
+            match chunk.len() % 8 {
+                0 => arrays!(5),
+                1 => arrays!(1),
+                2 => arrays!(7),
+                3 => arrays!(8),
+                4 => arrays!(9),
+                5 => arrays!(16),
+                6 => arrays!(64),
+                _ => arrays!(257),
             }
         }
         5 => {
